@@ -40,7 +40,8 @@ def complete_dict(module_context, code_lines, leaf, position, string, fuzzy):
         before_node = before_bracket_leaf = bracket_leaf.get_previous_leaf()
         if before_node in (')', ']', '}'):
             before_node = before_node.parent
-        if before_node.type in ('atom', 'trailer', 'name'):
+        # There is no leaf before a bracket at the very start of the file.
+        if before_node is not None and before_node.type in ('atom', 'trailer', 'name'):
             values = infer_call_of_leaf(context, before_bracket_leaf)
             return list(_completions_for_dicts(
                 module_context.inference_state,
